@@ -10,7 +10,7 @@ Open Scope string_scope.
    so the harness gives up its references, but nothing is released.
    CNvid: the builder call no_verify_in_drop() made late (it takes the instance by value: references are given up;
    nothing is released). *)
-Inductive cop := CRef (ty v : N) | CMut (ty v : N) | CLive | CHelp (ty v : N) | CTouch | CNvid.
+Inductive cop := CRef (ty v : N) | CMut (ty v : N) | CLive | CHelp (ty v : N) | CTouch | CNvid | CConsume.
 
 Definition show_lval (x : lval) : string := dec (fst x) ++ ":" ++ dec (snd x).
 Definition show_held (l : list lval) : string := "[" ++ join "," (map show_lval l) ++ "]".
@@ -46,6 +46,13 @@ Definition cop_step (others : N) (ci : cinst) (o : cop) : cinst * string :=
     let ci1 := {| ci_chain := ci_chain ci; ci_helper := ci_helper ci; ci_held := [] |} in
     (ci1, "[nvid] live=" ++ dec (others + ci_size ci1))
   | CLive => (ci, line (ci_held ci) (others + ci_size ci))
+  | CConsume =>
+    (* a provided method with a by-value receiver (only on a clone, as its last operation): the instance is moved into the
+       delegation helper and dropped when the call returns; while the body runs everything it lent is still alive (the body's
+       required call reports the number of live values), afterwards all of it is released *)
+    (* (the END of the instance: [sessions] counts nothing for it afterwards; within the session model nothing is released) *)
+    ({| ci_chain := ci_chain ci; ci_helper := ci_helper ci; ci_held := [] |},
+     "[consume" ++ dec (others + ci_size ci) ++ "] live=" ++ dec others)
   end.
 
 Fixpoint session (others : N) (ci : cinst) (ops : list cop) : cinst * list string :=
@@ -57,12 +64,14 @@ Fixpoint session (others : N) (ci : cinst) (ops : list cop) : cinst * list strin
     (ci'', out :: outs)
   end.
 
+Definition consumed (ops : list cop) : bool := match rev ops with CConsume :: _ => true | _ => false end.
+
 Fixpoint sessions (others : N) (sizes : list N) (ss : list (list cop)) : list string * list N :=
   match ss with
   | [] => ([], sizes)
   | ops :: rest =>
     let '(ci, out) := session others {| ci_chain := empty_chain; ci_helper := empty_chain; ci_held := [] |} ops in
-    let n := ci_size ci in
+    let n := if consumed ops then 0 else ci_size ci in
     let '(outs, sizes') := sessions (others + n) (sizes ++ [n]) rest in
     ((out ++ outs)%list, sizes')
   end.
